@@ -674,6 +674,9 @@ class TimeoutHandler(PoolThread):
         ), (None, None))
 
     def on_soft_timeout(self, job):
+        if job.ready():
+            # its result was processed while this scan was under way
+            return
         debug('soft time limit exceeded for %r', job)
         process, _index = self._process_by_pid(job._worker_pid)
         if not process:
